@@ -83,6 +83,7 @@ func main() {
 	replayFile := ""
 	repo := "/repo"
 	fuzzOverride := -1
+	onlyFuzz := false
 	for i := 1; i < len(args); i++ {
 		switch args[i] {
 		case "quick", "thorough":
@@ -93,6 +94,8 @@ func main() {
 		case "--repo":
 			i++
 			repo = args[i]
+		case "--only-fuzz":
+			onlyFuzz = true
 		case "--fuzztime":
 			i++
 			fuzzOverride, _ = strconv.Atoi(args[i])
@@ -141,7 +144,7 @@ func main() {
 	}
 
 	bin := filepath.Join(work, "props.test")
-	if msg := build(bin, repo, work, cfg.Race); msg != "" {
+	if msg := build(bin, repo, work, cfg.Race, false); msg != "" {
 		fmt.Fprintln(os.Stderr, msg)
 		fmt.Printf("INCONCLUSIVE property=%s build of harness against %s failed\n", id, repo)
 		exit(2)
@@ -221,6 +224,10 @@ func main() {
 		frag ev.Fragment
 		ok   bool
 	}
+	if onlyFuzz { // background fuzz campaigns: skip the shard stage (evidence is not written)
+		n = 0
+		tier = "thorough"
+	}
 	results := make([]res, n)
 	var wg sync.WaitGroup
 	for i := 0; i < n; i++ {
@@ -262,8 +269,14 @@ func main() {
 	// ---- native fuzzing (thorough) --------------------------------------------------
 	fuzzStats := map[string]any{}
 	if tier == "thorough" && len(cfg.Fuzz) > 0 && cfg.FuzzSeconds > 0 && len(violations) == 0 {
+		fbin := filepath.Join(work, "props.fuzz.test")
+		if msg := build(fbin, repo, work, false, true); msg != "" {
+			fmt.Fprintln(os.Stderr, msg)
+			fmt.Printf("INCONCLUSIVE property=%s build of the instrumented fuzz binary failed\n", id)
+			exit(2)
+		}
 		for _, target := range cfg.Fuzz {
-			st, viol, inc := runFuzz(bin, work, id, target, cfg.FuzzSeconds, replayDir, kf)
+			st, viol, inc := runFuzz(fbin, work, id, target, cfg.FuzzSeconds, replayDir, kf)
 			fuzzStats[target] = st
 			violations = append(violations, viol...)
 			if inc != "" {
@@ -277,7 +290,7 @@ func main() {
 	evd, known := merge(id, tier, seed, frags, hashFiles, replayed, fuzzStats, violations, wall)
 	os.MkdirAll(filepath.Join(verifDir, "evidence"), 0o755)
 	b, _ := json.MarshalIndent(evd, "", " ")
-	if repo == "/repo" { // evidence describes /repo only; self-test runs against scratch copies do not write it
+	if repo == "/repo" && !onlyFuzz { // evidence describes /repo only; self-test runs against scratch copies do not write it
 		if err := os.WriteFile(filepath.Join(verifDir, "evidence", id+".json"), append(b, '\n'), 0o644); err != nil {
 			die2("cannot write evidence: %v", err)
 		}
@@ -329,11 +342,14 @@ func tail(s string, n int) string {
 }
 
 // build compiles harness/props against the given repo directory.
-func build(bin, repo, work string, race bool) string {
+func build(bin, repo, work string, race, fuzz bool) string {
 	harness := filepath.Join(verifDir, "harness")
 	args := []string{"test", "-c", "-vet=off", "-o", bin}
 	if race {
 		args = append(args, "-race")
+	}
+	if fuzz { // coverage instrumentation for native fuzzing
+		args = append(args, "-fuzz=Fuzz")
 	}
 	if repo != "/repo" {
 		mod, err := os.ReadFile(filepath.Join(harness, "go.mod"))
@@ -394,7 +410,7 @@ func readFrag(path string) (ev.Fragment, bool) {
 }
 
 var (
-	reFuzzLine = regexp.MustCompile(`execs: (\d+) .*new interesting: (\d+) \(total: (\d+)\)`)
+	reFuzzLine = regexp.MustCompile(`execs: (\d+) \(\d+/sec\)(?:, new interesting: (\d+) \(total: (\d+)\))?`)
 	reFuzzFail = regexp.MustCompile(`Failing input written to (\S+)`)
 )
 
@@ -425,9 +441,11 @@ func runFuzz(bin, work, id, target string, seconds int, replayDir, kf string) (m
 	if ms := reFuzzLine.FindAllStringSubmatch(out, -1); len(ms) > 0 {
 		last := ms[len(ms)-1]
 		e, _ := strconv.ParseInt(last[1], 10, 64)
-		c, _ := strconv.ParseInt(last[3], 10, 64)
 		st["execs"] = e
-		st["corpus_interesting"] = c
+		if last[3] != "" {
+			c, _ := strconv.ParseInt(last[3], 10, 64)
+			st["corpus_total"] = c
+		}
 	}
 	var viol []ev.Violation
 	if m := reFuzzFail.FindStringSubmatch(out); m != nil {
